@@ -4,8 +4,10 @@ import (
 	"log"
 	"os"
 	"path/filepath"
+	"slices"
 	"sort"
 	"strings"
+	"sync"
 	"time"
 
 	"github.com/gopacket/gopacket"
@@ -22,7 +24,10 @@ import (
 
 type (
 	Builder struct {
-		snapshots        []*snapshot
+		snapshots []*snapshot
+		// mu guards knownPcaps and packetCount: FromPcap updates them on the
+		// importing goroutine while KnownPcaps and PacketCount are called by others.
+		mu               sync.Mutex
 		knownPcaps       []*pcapmetadata.PcapInfo
 		packetCount      uint
 		indexDir         string
@@ -552,6 +557,7 @@ outer:
 		b.snapshotFilename = filepath.Base(newSnapshotFilename)
 	}
 
+	b.mu.Lock()
 nextNewPcap:
 	for _, pi := range newPcapInfos {
 		for _, known := range b.knownPcaps {
@@ -564,6 +570,7 @@ nextNewPcap:
 		b.knownPcaps = append(b.knownPcaps, pi)
 		b.packetCount += pi.PacketCount
 	}
+	b.mu.Unlock()
 	b.snapshots = newSnapshots
 
 	outputFiles := []string{}
@@ -575,9 +582,14 @@ nextNewPcap:
 }
 
 func (b *Builder) PacketCount() uint {
+	b.mu.Lock()
+	defer b.mu.Unlock()
 	return b.packetCount
 }
 
+// KnownPcaps returns a copy of the list of known pcaps.
 func (b *Builder) KnownPcaps() []*pcapmetadata.PcapInfo {
-	return b.knownPcaps
+	b.mu.Lock()
+	defer b.mu.Unlock()
+	return slices.Clone(b.knownPcaps)
 }
